@@ -364,6 +364,41 @@ def gen_cases(ctx, rng, n_pairs, n_unary, n_full, n_near):
             cases.append(Case(kk, A, B, family='hole-contact', label=lab))
         cases.append(Case('INT', B, A, family='hole-contact', label=lab + '/swap'))
         cases.append(Case('DIF', B, A, family='hole-contact', label=lab + '/swap'))
+    # long lines (> 20 vertices: limited to the clip envelope by ONE LineLimiter per overlay), several per operand, all element orders
+    import itertools
+    for i in range(max(3, n_pairs // 25)):
+        lines, P = L.long_lines_case(rng)
+        orders = list(itertools.permutations(range(len(lines))))
+        rng.shuffle(orders)
+        for od in orders[:3]:
+            ML = ('MLS', [lines[j] for j in od])
+            lab = 'multiline-vs-area'
+            for kk in ('INT', 'DIF'):
+                cases.append(Case(kk, ML, P, family='long-lines', label=lab))
+            cases.append(Case('INT', P, ML, family='long-lines', label=lab + '/swap'))
+        # one long line per operand, both orders; and a long line against a multi of the others
+        a, b = lines[0], lines[1]
+        for kk in ('INT', 'DIF'):
+            cases.append(Case(kk, ('LS', a), ('LS', b), family='long-lines', label='line-vs-line'))
+            cases.append(Case(kk, ('LS', b), ('LS', a), family='long-lines', label='line-vs-line/swap'))
+        cases.append(Case('UNI', ('MLS', lines), P, family='long-lines', label='multiline-vs-area'))
+        cases.append(Case('SYM', ('LS', a), P, family='long-lines', label='line-vs-area'))
+    # nesting depth >= 3: donuts in donuts, every element order, as one MultiPolygon and split over the operands
+    far = ('PG', [L.ring_rect(70 * L.M, 10 * L.M, 80 * L.M, 20 * L.M)])
+    for i in range(max(1, n_pairs // 60)):
+        D = L.nested_donuts(rng, rng.choice([3, 3, 4]))
+        if len(D) < 3: continue
+        perms = list(itertools.permutations(range(len(D))))
+        if len(perms) > 6: rng.shuffle(perms); perms = perms[:8]
+        for pm in perms:
+            MP = ('MPG', [D[j] for j in pm])
+            cases.append(Case('UU', MP, family='nested', label='donuts-%d' % len(D)))
+            cases.append(Case('UNI', MP, far, family='nested', label='donuts-%d' % len(D)))
+            cases.append(Case(rng.choice(['SYM', 'DIF', 'INT']), MP, MP if rng.random() < 0.3 else L.shift(far, -60 * L.M, -10 * L.M), family='nested', label='donuts-%d' % len(D)))
+            head, last = ('MPG', [D[j] for j in pm[:-1]]), ('PG', D[pm[-1]])
+            cases.append(Case('UNI', head, last, family='nested', label='donuts-split'))
+            cases.append(Case('UNI', last, head, family='nested', label='donuts-split/swap'))
+            cases.append(Case('SYM', ('PG', D[pm[0]]), ('MPG', [D[j] for j in pm[1:]]), family='nested', label='donuts-split'))
     # unary calls
     for i in range(n_unary):
         k = rng.random()
@@ -612,7 +647,7 @@ def run(ctx):
     for c in cases[:4]:
         ctx.sample(json.dumps(c.describe())[:400])
     # self-check of the generator: the case split of the specification must have been exercised
-    need = {'call': ['INT', 'UNI', 'DIF', 'SYM', 'UU', 'UC', 'DSU', 'CU', 'CLIP'], 'family': ['grid', 'full', 'near', 'unary', 'clip', 'disjoint-gc', 'hole-contact']}
+    need = {'call': ['INT', 'UNI', 'DIF', 'SYM', 'UU', 'UC', 'DSU', 'CU', 'CLIP'], 'family': ['grid', 'full', 'near', 'unary', 'clip', 'disjoint-gc', 'hole-contact', 'long-lines', 'nested']}
     for k, vs in need.items():
         for v in vs:
             if dist[k].get(v, 0) == 0:
